@@ -32,11 +32,19 @@ func init() {
 			"Key ids: TokenKeyID() of type 1/2/3/5 issuers == SHA-256(reference serialization) and requests of types 1, 2, 5 carry byte 31 of it (keys whose id has different first and last bytes); type-3 requests carry SHA-256(reference EncapKey encoding) as name key id. " +
 			"Related keys in sequence: issuers over the same modulus with different exponents, keys whose hex(N)||hex(E) coincide decoded back to back in both forms, keys decoded from accepted encodings with other PSS parameters / trailing bytes must encode to the prescribed DER (and give its SHA-256 as key id), name keys decoded from encoding||trailing bytes. " +
 			"distinct_nontrivial = distinct (modulus byte length, top bit, exponent class) and (issuer type, key) keys",
-		Floors:      []string{"pss_der_equals_reference", "legacy_der_equals_reference", "unmarshal_inverts_pss", "unmarshal_inverts_legacy", "x509_accepts_legacy", "rust_pks_anchor", "key_id_type1", "key_id_type2", "key_id_type3", "key_id_type5", "truncated_key_id_last_byte", "name_key_id", "name_key_id_decoded_suites", "key_id_same_modulus_other_exponent", "related_keys_decoded_back_to_back", "decoded_key_encodes_to_prescribed_der", "modulus_containing_pem_block", "key_id_odd_size_moduli", "moduli_with_chosen_leading_octets", "moduli_containing_der_fragments"},
+		Floors:      []string{"pss_der_equals_reference", "legacy_der_equals_reference", "unmarshal_inverts_pss", "unmarshal_inverts_legacy", "x509_accepts_legacy", "rust_pks_anchor", "key_id_type1", "key_id_type2", "key_id_type3", "key_id_type5", "truncated_key_id_last_byte", "name_key_id", "name_key_id_decoded_suites", "key_id_same_modulus_other_exponent", "related_keys_decoded_back_to_back", "decoded_key_encodes_to_prescribed_der", "modulus_containing_pem_block", "key_id_odd_size_moduli", "moduli_with_chosen_leading_octets", "moduli_containing_der_fragments", "earlier_encodings_unchanged"},
 		Assumptions: []string{"encoding needs no factorisation: synthetic moduli are arbitrary positive integers", "go-hpke's X25519 key derivation and crypto/x509 are trusted"},
 		Run:         runC18,
 	})
 }
+
+type c18Kept struct {
+	got, snap []byte
+	tag       string
+}
+
+// c18Earlier holds the last few encodings the marshal functions returned in this worker, with copies.
+var c18Earlier []c18Kept
 
 func c18Key(c *core.Ctx, n *big.Int, e int, tag string) {
 	c.Eval(1)
@@ -55,6 +63,21 @@ func c18Key(c *core.Ctx, n *big.Int, e int, tag string) {
 			return
 		}
 		c.Class("pss_der_equals_reference")
+		// encodings handed out by earlier calls (other keys, small and large) still read as they did: a result must not
+		// live in storage that the next call writes
+		for _, pv := range c18Earlier {
+			if !bytes.Equal(pv.got, pv.snap) {
+				d["earlier_key"], d["earlier_now"], d["earlier_was"] = pv.tag, core.Hex(pv.got), core.Hex(pv.snap)
+				c.Violation("MarshalTokenKey:earlier-result-changed", "a token key encoding returned by an earlier call changed when another key was encoded", d)
+				c18Earlier = nil
+				return
+			}
+		}
+		c18Earlier = append(c18Earlier, c18Kept{got, clone(got), tag}, c18Kept{got2, clone(got2), tag})
+		if len(c18Earlier) > 12 {
+			c18Earlier = c18Earlier[len(c18Earlier)-12:]
+		}
+		c.Class("earlier_encodings_unchanged")
 		back, err := util.UnmarshalTokenKey(clone(got))
 		if err != nil || back.N.Cmp(n) != 0 || back.E != e {
 			c.Violation("UnmarshalTokenKey:pss-roundtrip", fmt.Sprintf("UnmarshalTokenKey does not invert the RSASSA-PSS form (err=%v)", err), d)
@@ -70,6 +93,7 @@ func c18Key(c *core.Ctx, n *big.Int, e int, tag string) {
 			return
 		}
 		c.Class("legacy_der_equals_reference")
+		c18Earlier = append(c18Earlier, c18Kept{gotL, clone(gotL), tag}, c18Kept{gotL2, clone(gotL2), tag})
 		backL, err := util.UnmarshalTokenKey(clone(gotL))
 		if err != nil || backL.N.Cmp(n) != 0 || backL.E != e {
 			c.Violation("UnmarshalTokenKey:legacy-roundtrip", fmt.Sprintf("UnmarshalTokenKey does not invert the legacy form (err=%v)", err), d)
@@ -358,7 +382,7 @@ func runC18(c *core.Ctx) {
 		}
 	}
 	// ---- DER: synthetic moduli
-	exps := []int{3, 17, 65537, 1<<31 - 1, 1 << 31, 1<<32 + 1, 1<<62 + 1}
+	exps := []int{3, 17, 65537, 1<<31 - 1, 1 << 31, 1<<32 + 1, 1<<62 + 1, 0, 1, 2, 127, 128, 255, 256, 32767, 32768, 65535, 65536, 1<<63 - 1}
 	var lens []int
 	for l := 1; l <= 300; l++ {
 		lens = append(lens, l)
